@@ -279,3 +279,5 @@ func And(a, b bool) bool     { return a && b }
 func Or(a, b bool) bool      { return a || b }
 func Not(a bool) bool        { return !a }
 func Implies(a, b bool) bool { return !a || b }
+
+func YAMLAssume(valid bool) {}
